@@ -5,7 +5,7 @@
    (Algebra/Grp.v); the challenge oracles Hc / Hd, the fixed-length encodings
    and the prover's private randomness [rnd] are arbitrary. *)
 From Coq Require Import ZArith Znumtheory List Bool.
-From Kyber Require Import Algebra.Zq Algebra.Grp Sigma.SigmaSM Sigma.SigmaProofs.
+From Kyber Require Import Algebra.Zq Algebra.Grp Sigma.SigmaSM Sigma.SigmaProofs Sigma.SigmaOr.
 Import ListNotations.
 
 (* ---- completeness ---------------------------------------------------- *)
@@ -178,7 +178,7 @@ Print Assumptions C14_special_sound_scope.
 
 (* ---- false claims ----------------------------------------------------- *)
 
-(* PARTIAL.  Full statement wanted: for every well-formed tree and every
+(* PARTIAL (kept; the full statement is C14_false_claim_tree below).  Full statement wanted: for every well-formed tree and every
    choice map, the proof the honest prover produces from secrets that do not
    satisfy a Rep of the claimed branch is accepted only if the challenge of
    that branch (c minus the pre-challenges of the other branches) is 0.
@@ -200,6 +200,99 @@ Theorem C14_false_claim_partial :
                    Hc name (firstn (nreps a * plen) proof) = zzero \/ pval P = lin q pval sval T).
 Proof. exact false_claim_scope. Qed.
 Print Assumptions C14_false_claim_partial.
+
+(* FULL statement (theories/Sigma/SigmaOr.v): for EVERY well-formed tree (Rep /
+   And / Or nested as the model supports, Or above And) and every choice map
+   that names a branch at every Or of the obligated path, the honest prover
+   run with ARBITRARY secrets produces a proof, and hash_verify accepts it iff
+   every Rep of every scope at the end of the obligated path satisfies
+       c_scope = 0  \/  P = sum x_s*B_s
+   where (obl_scopes) c_scope is the hash challenge minus, at every Or on the
+   path, the sum of the pre-challenges the prover drew for the other branches
+   (zsub c (psum (somes wi)), exactly what respond computes). *)
+Theorem C14_false_claim_tree :
+  forall q, prime q ->
+  forall (plen slen : nat) (enc_pt enc_sc : zq q -> list Z) (dec_pt dec_sc : list Z -> option (zq q)),
+    (forall x, length (enc_pt x) = plen) -> (forall x, dec_pt (enc_pt x) = Some x) ->
+    (forall x, length (enc_sc x) = slen) -> (forall x, dec_sc (enc_sc x) = Some x) ->
+  forall Hc pval sval choice rnd name p,
+    wf p = true -> choice_ok choice p ->
+    exists proof st n Vs,
+      hash_prove q enc_pt enc_sc Hc name p pval sval choice rnd = Ok proof /\
+      commit q pval choice rnd p None O = Ok (st, n, Vs) /\
+      (hash_verify q plen slen dec_pt dec_sc Hc name p pval proof = None <->
+       forall cs a, In (cs, a) (obl_scopes q st (Hc name (firstn (nreps p * plen) proof))) ->
+         forall P T, In (P, T) (reps_of a) -> cs = zzero \/ pval P = lin q pval sval T).
+Proof. exact false_claim_tree. Qed.
+Print Assumptions C14_false_claim_tree.
+
+(* in the property's words: secrets that do not satisfy a Rep of the claimed
+   branch give no accepted proof unless the challenge cs of that branch is 0 *)
+Theorem C14_false_claim_rejected :
+  forall q, prime q ->
+  forall (plen slen : nat) (enc_pt enc_sc : zq q -> list Z) (dec_pt dec_sc : list Z -> option (zq q)),
+    (forall x, length (enc_pt x) = plen) -> (forall x, dec_pt (enc_pt x) = Some x) ->
+    (forall x, length (enc_sc x) = slen) -> (forall x, dec_sc (enc_sc x) = Some x) ->
+  forall Hc pval sval choice rnd name p proof st n Vs cs a P T,
+    hash_prove q enc_pt enc_sc Hc name p pval sval choice rnd = Ok proof ->
+    commit q pval choice rnd p None O = Ok (st, n, Vs) ->
+    wf p = true -> choice_ok choice p ->
+    In (cs, a) (obl_scopes q st (Hc name (firstn (nreps p * plen) proof))) ->
+    In (P, T) (reps_of a) -> pval P <> lin q pval sval T ->
+    cs <> zzero ->
+    hash_verify q plen slen dec_pt dec_sc Hc name p pval proof <> None.
+Proof. exact false_claim_rejected. Qed.
+Print Assumptions C14_false_claim_rejected.
+
+(* the obligated path of an honest run ends in exactly one scope: the claim
+   above speaks about one scope and one named challenge value *)
+Theorem C14_obligated_scope_unique :
+  forall q (pval : Z -> zq q) choice rnd p,
+    wf p = true -> choice_ok choice p ->
+    forall n st n' Vs, commit q pval choice rnd p None n = Ok (st, n', Vs) ->
+    forall c, exists cs a, obl_scopes q st c = [(cs, a)].
+Proof. exact obl_scope_unique. Qed.
+Print Assumptions C14_obligated_scope_unique.
+
+(* ---- altered commitments, tree level ---------------------------------- *)
+
+(* with the same challenge and the same responses / sub-challenges, two
+   different commitment vectors are never both accepted (any tree) *)
+Theorem C14_commitments_determined :
+  forall q, prime q ->
+  forall slen dec_sc (pval : Z -> zq q) svs p c V1 V2 buf r1 r2,
+    verify q slen dec_sc pval svs p c V1 buf = Ok r1 ->
+    verify q slen dec_sc pval svs p c V2 buf = Ok r2 ->
+    firstn (nreps p) V1 = firstn (nreps p) V2.
+Proof. exact commitments_determined. Qed.
+Print Assumptions C14_commitments_determined.
+
+(* an accepted proof whose commitments are replaced (rest kept) is accepted
+   only if the hash output moves: with a colliding hash it is rejected *)
+Theorem C14_altered_commitments_need_new_challenge :
+  forall q, prime q ->
+  forall (plen slen : nat) (enc_pt : zq q -> list Z) (dec_pt dec_sc : list Z -> option (zq q)),
+    (forall x, length (enc_pt x) = plen) -> (forall x, dec_pt (enc_pt x) = Some x) ->
+  forall Hc name p pval Vs Vs' tail,
+    length Vs = nreps p -> length Vs' = nreps p -> Vs' <> Vs ->
+    hash_verify q plen slen dec_pt dec_sc Hc name p pval (enc_pts q enc_pt Vs ++ tail) = None ->
+    hash_verify q plen slen dec_pt dec_sc Hc name p pval (enc_pts q enc_pt Vs' ++ tail) = None ->
+    Hc name (enc_pts q enc_pt Vs') <> Hc name (enc_pts q enc_pt Vs).
+Proof. exact altered_commitments_need_new_challenge. Qed.
+Print Assumptions C14_altered_commitments_need_new_challenge.
+
+(* under an Or with more than one branch: rejected unconditionally *)
+Theorem C14_altered_commitments_or_rejected :
+  forall q, prime q ->
+  forall (plen slen : nat) (enc_pt : zq q -> list Z) (dec_pt dec_sc : list Z -> option (zq q)),
+    (forall x, length (enc_pt x) = plen) -> (forall x, dec_pt (enc_pt x) = Some x) ->
+  forall Hc name id l pval Vs Vs' tail,
+    (1 < length l)%nat ->
+    length Vs = nreps (Or id l) -> length Vs' = nreps (Or id l) -> Vs' <> Vs ->
+    hash_verify q plen slen dec_pt dec_sc Hc name (Or id l) pval (enc_pts q enc_pt Vs ++ tail) = None ->
+    hash_verify q plen slen dec_pt dec_sc Hc name (Or id l) pval (enc_pts q enc_pt Vs' ++ tail) <> None.
+Proof. exact altered_commitments_or_rejected. Qed.
+Print Assumptions C14_altered_commitments_or_rejected.
 
 (* ---- non-vacuity ------------------------------------------------------ *)
 (* q = 251, one-byte encodings; P1 = x1*B + x2*H is true, P2 = x1*B is false;
@@ -228,4 +321,35 @@ Proof.
     destruct (Z.ltb_spec (val x) 251) as [_|H]; [|exfalso; apply (Zlt_not_le _ _ (proj2 R)); exact H].
     f_equal. apply zq_eq. unfold of_Z. cbn [val]. apply val_mod. }
   vm_compute. repeat split; discriminate.
+Qed.
+
+(* nested Or: Or [false Rep; Or [And [true Rep]; false Rep]] with the inner
+   true branch chosen: premises of C14_hash_complete and C14_false_claim_tree
+   hold, the honest proof is accepted; with a wrong secret x2 the proof is
+   rejected and the challenge of the claimed scope is 240 <> 0 *)
+Example C14_nested_or_nonvacuous :
+  wf nv2_pred = true /\ choice_ok nv2_choice nv2_pred /\
+  obl_ok 251 nv_pval nv_sval nv2_choice nv2_pred /\
+  match hash_prove 251 nv_enc nv_enc nv_Hc [7]%Z nv2_pred nv_pval nv_sval nv2_choice nv_rnd with
+  | Ok proof => hash_verify 251 1 1 nv_dec nv_dec nv_Hc [7]%Z nv2_pred nv_pval proof = None
+  | Err _ => False
+  end /\
+  match hash_prove 251 nv_enc nv_enc nv_Hc [7]%Z nv2_pred nv_pval nv2_sval_bad nv2_choice nv_rnd,
+        commit 251 nv_pval nv2_choice nv_rnd nv2_pred None O with
+  | Ok proof, Ok (st, _, _) =>
+      hash_verify 251 1 1 nv_dec nv_dec nv_Hc [7]%Z nv2_pred nv_pval proof <> None /\
+      map (fun x => (val (fst x), snd x))
+          (obl_scopes 251 st (nv_Hc [7]%Z (firstn (nreps nv2_pred * 1) proof))) =
+      [(240%Z, And [Rep 1 [(1, 10); (2, 11)]]%Z)]
+  | _, _ => False
+  end.
+Proof.
+  split; [reflexivity|]. split.
+  { cbn. exists 1%nat. split; [reflexivity|]. cbn. exists 0%nat. split; [reflexivity|]. cbn. exact I. }
+  split.
+  { cbn. exists 1%nat. split; [reflexivity|]. cbn. exists 0%nat. split; [reflexivity|]. cbn.
+    split; [|exact I]. apply zq_eq. vm_compute. reflexivity. }
+  split.
+  { vm_compute. reflexivity. }
+  vm_compute. split; [discriminate|reflexivity].
 Qed.
